@@ -91,11 +91,57 @@ def core(ctx):
                                    ["r", "or", ["a", "b"], False], ["o", "xor", ["l", "r"], True], ["p", "nand", ["l", "a"], True]],
            "bbtypes": [], "insts": []}
     yield {"spec": dia, "superc": False}
+    for v in (0, 1, 2):
+        yield {"spec": _mutual(v), "superc": False}
+
+
+def _mutual(variant):
+    """Two outputs, each of which has the other's shared sub-function inside its supergate: p = f(h1, h2) and
+    q = f(h3, h4) are built on heads of reconvergent blocks (no primary input of their own); p reconverges inside
+    output B and is a clean cut point of output A, q the other way round (F26)."""
+    nodes = [[n, "input", [], False] for n in ("a", "b", "d", "e", "f", "g", "h", "i")]
+    for hn, (x, y) in (("h1", ("a", "b")), ("h2", ("d", "e")), ("h3", ("f", "g")), ("h4", ("h", "i"))):
+        nodes += [[hn + "_m", "and", [x, y], False], [hn + "_o", "or", [x, y], False], [hn, "xor", [hn + "_m", hn + "_o"], False]]
+    nodes += [["p", "xor", ["h1", "h2"], False], ["q", "xor" if variant != 2 else "nand", ["h3", "h4"], False]]
+    nodes += [["t1", "or", ["p", "h3"], False], ["A", "xor", ["t1", "q"], True]]
+    if variant == 0:
+        nodes += [["t2", "xor", ["p", "q"], False], ["t3", "and", ["p", "h1"], False], ["t4", "or", ["t2", "t3"], False], ["B", "not", ["t4"], True]]
+    else:
+        nodes += [["t3", "and", ["q", "h1"], False], ["B", "xor", ["t3", "p"], True]]
+    return {"name": "mutual", "nodes": nodes, "bbtypes": [], "insts": []}
 
 
 @st.composite
 def _case(draw, ctx):
-    shape = draw(st.sampled_from(["reconv", "reconv", "wide", "multi", "single", "large"]))
+    shape = draw(st.sampled_from(["reconv", "reconv", "wide", "multi", "single", "large", "shared"]))
+    if shape == "shared":
+        # several outputs built on a few shared sub-functions that themselves sit on heads of reconvergent blocks
+        nh = draw(st.integers(2, 4))
+        nodes = [[f"x{i}", "input", [], False] for i in range(2 * nh)]
+        heads = []
+        for i in range(nh):
+            a_, b_ = f"x{2 * i}", f"x{2 * i + 1}"
+            t1, t2, t3 = (draw(st.sampled_from(S.NARY)) for _ in range(3))
+            nodes += [[f"h{i}_m", t1, [a_, b_], False], [f"h{i}_o", t2, [a_, b_], False], [f"h{i}", t3, [f"h{i}_m", f"h{i}_o"], False]]
+            heads.append(f"h{i}")
+        shared = []
+        for k in range(draw(st.integers(1, 3))):
+            ops = draw(st.lists(st.sampled_from(heads), min_size=2, max_size=2, unique=True))
+            nodes.append([f"s{k}", draw(st.sampled_from(S.NARY)), ops, False])
+            shared.append(f"s{k}")
+        pool_ = heads + shared
+        for o in range(draw(st.integers(2, 3))):
+            cur = draw(st.sampled_from(shared))
+            for j in range(draw(st.integers(1, 3))):
+                other = draw(st.sampled_from(pool_))
+                nm = f"o{o}_{j}"
+                nodes.append([nm, draw(st.sampled_from(S.NARY)), [cur, other] if cur != other else [cur], False])
+                cur = nm
+            nodes[-1][3] = True
+        spec = {"name": "c", "nodes": nodes, "bbtypes": [], "insts": []}
+        if draw(st.booleans()):
+            spec["nodes"] = list(draw(st.permutations(nodes)))
+        return {"spec": spec, "superc": False, "prelimit": 0}
     if shape == "large":
         # deeper nesting of supergates needs more room: 5..9 inputs, up to 28 gates, 1..3 outputs
         spec = draw(S.circuit_spec(min_inputs=5, max_inputs=9, min_gates=12, max_gates=28, max_fanin=draw(st.sampled_from([2, 2, 3])),
